@@ -50,6 +50,9 @@ def gen_world(rng, max_wrappers=5):
     impls = []
     for i in range(n_impl):
         impls.append({"addr": f"http://h{i}.test:80{i}0", "ids": not (i == 1 and rng.random() < 0.3)})
+    if n_impl == 2 and rng.random() < 0.4:
+        # two connections created independently to the same address: two sequences of their own
+        impls[1]["addr"] = impls[0]["addr"]
     wrappers = []
     for i in range(n_impl):
         wrappers.append({"kind": "base", "impl": i, "parent": None, "auth": False})
